@@ -220,7 +220,7 @@ fn hist_json(h: &Hist) -> Value {
 }
 
 fn decode_kind(t: &mut Tape) -> (Api, Kind) {
-    match t.below(16) {
+    match t.below(18) {
         0 => (Api::Flow, Kind::DefaultChunked),
         1 => (Api::Call, Kind::DefaultChunked),
         2 => (Api::Flow, Kind::ExplicitTe),
@@ -236,7 +236,9 @@ fn decode_kind(t: &mut Tape) -> (Api, Kind) {
         12 => (Api::Flow, Kind::ViaAwait100 { saw_100: true }),
         13 => (Api::Flow, Kind::ViaAwait100 { saw_100: false }),
         14 => (Api::Flow, Kind::DespiteChunkedHeaderFirst),
-        _ => (Api::Flow, Kind::DefaultChunkedExtraHeadWrites),
+        15 => (Api::Flow, Kind::DefaultChunkedExtraHeadWrites),
+        16 => (Api::Flow, Kind::TeOtherCaseAndCl(4, false)),
+        _ => (Api::Call, Kind::TeOtherCaseAndCl(4, true)),
     }
 }
 
@@ -325,7 +327,7 @@ after every call the cumulative output is fed to \
 an incremental strict chunk decoder and must be whole non-empty chunks whose data equals the concatenated consumed \
 prefixes; terminator only from an empty write, at most once; finished() <=> terminator emitted; writes after the end: \
 non-empty refused, empty (0,0) or refused - nothing emitted either way. enumeration 'grid': (input 0..40 [thorough 0..300]) x (output 0..64 [0..300]) x (finish \
-output 0..8) x 16 api/kind combinations (incl. the body state reached through Await100, Transfer-Encoding added before send-body-despite-method, Transfer-Encoding in another case, on two lines, next to a Content-Length). non-trivial = history with a finish and a write that left <= 5 bytes of space with \
+output 0..8) x 18 api/kind combinations (incl. the body state reached through Await100, Transfer-Encoding added before send-body-despite-method, Transfer-Encoding in another case, on two lines, next to a Content-Length). non-trivial = history with a finish and a write that left <= 5 bytes of space with \
 input pending or had an output < 6; distinct by decoded-choice digest.",
     assumptions: &[
         "an empty-input write is the end-of-body signal (documented), never a no-op probe",
@@ -335,12 +337,12 @@ input pending or had an output < 6; distinct by decoded-choice digest.",
     exec: exec_random,
     enums: &[EnumDef {
         name: "grid",
-        count: |t: Tier| 16 * 9 * t.pick(GRID_IN_Q * GRID_OUT_Q, GRID_T * GRID_T),
+        count: |t: Tier| 18 * 9 * t.pick(GRID_IN_Q * GRID_OUT_Q, GRID_T * GRID_T),
         tape: |tier, idx| {
             let (ni, no) = tier.pick((GRID_IN_Q, GRID_OUT_Q), (GRID_T, GRID_T));
-            let k = idx % 16;
-            let f = (idx / 16) % 9;
-            let r = idx / 144;
+            let k = idx % 18;
+            let f = (idx / 18) % 9;
+            let r = idx / 162;
             let _ = ni;
             vec![k as u32, (r / no) as u32, (r % no) as u32, f as u32]
         },
